@@ -1,4 +1,4 @@
-// Demonstrations of the genuine defects F1..F13 found by the static rules of /verif
+// Demonstrations of the genuine defects F1..F14 found by the static rules of /verif
 // (see DESIGN.md §4 and KNOWN_FINDINGS.txt). Each test states the behaviour the property
 // requires; it FAILS on the pinned snapshot and PASSES once the corresponding `fix:` commit
 // is applied. This file is evidence for triage only -- no check in MANIFEST.json runs it.
@@ -466,6 +466,20 @@ fn f13_failed_switch_then_finish_no_panic() {
         (a, b, c)
     });
     assert_eq!(r, Ok((true, true, true)), "misuse must be reported by Err, no call may panic");
+}
+
+// ------------------------------------------------------------------ F14 (C08, also C03 / C16)
+#[test]
+fn f14_record_after_aes_extra_is_parsed() {
+    // AE-2 entry whose central extra field holds the AE-x record FIRST and the ZIP64 record SECOND (both orders are legal, APPNOTE 4.5.1):
+    // the uncompressed size lives in the ZIP64 record (32-bit slot = 0xFFFFFFFF)
+    let real: u64 = 0x1_2345_6789;
+    let mut extra = aes_extra(2, 3, 0);
+    extra.extend_from_slice(&le16(0x0001)); extra.extend_from_slice(&le16(8)); extra.extend_from_slice(&real.to_le_bytes());
+    let z = mk_zip(b"a", 1, 99, 0, 28, 0xFFFF_FFFF, &[], &extra, &[0u8; 28], 0);
+    let mut ar = zip::ZipArchive::new(Cursor::new(z)).expect("well-formed archive");
+    let f = ar.by_index_raw(0).unwrap();
+    assert_eq!(f.size(), real, "the ZIP64 record behind the AE-x record was skipped: the walk left the record boundary");
 }
 
 #[allow(dead_code)]
